@@ -110,7 +110,7 @@ func (r Response) MarshalBinary() ([]byte, error) {
 		data, err := io.ReadAll(body)
 		_ = body.Close()
 		if err != nil {
-			r.Data.Body = &partialBody{Reader: bytes.NewReader(data), err: err}
+			r.Data.Body = &partialBody{data: bytes.NewReader(data), err: err}
 			return nil, fmt.Errorf("failed to read response body: %w", err)
 		}
 		r.Data.Body = io.NopCloser(bytes.NewReader(data))
@@ -131,12 +131,12 @@ func (r Response) MarshalBinary() ([]byte, error) {
 
 // partialBody replays what was read of a body that failed, then the failure.
 type partialBody struct {
-	*bytes.Reader
-	err error
+	data *bytes.Reader // (not embedded: its WriteTo would let io.Copy skip the failure)
+	err  error
 }
 
 func (p *partialBody) Read(b []byte) (int, error) {
-	n, err := p.Reader.Read(b)
+	n, err := p.data.Read(b)
 	if err == io.EOF {
 		err = p.err
 	}
